@@ -70,6 +70,7 @@ Definition opt_eqb (a b : option Z) : bool :=
   | _, _ => false
   end.
 
+(** [References.Resolve]: the list afterwards / whether an error was returned *)
 Definition resolved (s : list ref) : list ref := fst (refs_resolve s).
 Definition resolve_fails (s : list ref) : bool := snd (refs_resolve s).
 
@@ -91,14 +92,15 @@ Definition vap_actor (idx : Z) (prev cur : list ref) (pa : option Z) (st : step)
         | Some code =>
             (* actorRefs := step.ActorCode.References.Exclude()  -- "a copy": sorted and merged *)
             bind (exclude code []) (fun arefs0 =>
-            let arefs := resolved arefs0 in
-            let i2 := if resolve_fails arefs0 then [mkVI idx 2 [] []] else [] in
-            bind (exclude arefs prev) (fun nm =>
+            let pa0 := refs_resolve arefs0 in      (* actorRefs.Resolve(), evaluated once *)
+            let i2 := if snd pa0 then [mkVI idx 2 [] []] else [] in
+            bind (exclude (fst pa0) prev) (fun nm =>
             match nm with
             | [] => Ok (i2, Some a)
             | _ =>
-                let i3 := if resolve_fails nm then [mkVI idx 3 [] []] else [] in
-                Ok (i2 ++ i3 ++ [mkVI idx 4 (resolved nm) cur], Some a)
+                let pn := refs_resolve nm in       (* nonMeasured.Resolve() *)
+                let i3 := if snd pn then [mkVI idx 3 [] []] else [] in
+                Ok (i2 ++ i3 ++ [mkVI idx 4 (fst pn) cur], Some a)
             end))
         end
   end.
@@ -108,9 +110,9 @@ Fixpoint vap_go (idx : Z) (measured : list ref) (pa : option Z) (l : list step)
   match l with
   | [] => Ok []
   | st :: t =>
-      let newm := resolved (s_meas st) in
-      let i1 := if resolve_fails (s_meas st) then [mkVI idx 1 [] []] else [] in
-      bind (sm (measured ++ newm)) (fun cur =>
+      let pm := refs_resolve (s_meas st) in        (* newMeasuredRefs.Resolve(), evaluated once *)
+      let i1 := if snd pm then [mkVI idx 1 [] []] else [] in
+      bind (sm (measured ++ fst pm)) (fun cur =>
       bind (vap_actor idx measured cur pa st) (fun '(iss, pa') =>
       bind (vap_go (idx + 1) cur pa' t) (fun rest =>
       Ok (i1 ++ iss ++ rest))))
